@@ -3302,12 +3302,19 @@ XPath::stepPattern(
 
             opPos += 3;
 
-            score = NodeTester(
+            // Only attributes are on the attribute axis (the node tests
+            // node(), text(), comment() and processing-instruction() do not
+            // look at the axis), and namespace declarations are not...
+            if (context->getNodeType() == XalanNode::ATTRIBUTE_NODE &&
+                DOMServices::isNamespaceDeclaration(static_cast<const XalanAttr&>(*context)) == false)
+            {
+                score = NodeTester(
                             *this,
                             executionContext,
                             opPos,
                             argLen,
-                            XPathExpression::eFROM_ATTRIBUTES)(*context, context->getNodeType());
+                            XPathExpression::eFROM_ATTRIBUTES)(*context, XalanNode::ATTRIBUTE_NODE);
+            }
         }
         break;
 
